@@ -13,11 +13,20 @@ DATA = {
     "b": [[[0.0, 2.0], [1.0, 1.5]], [[-0.25, 0.5], [0.75, 1.0]]],
     "c": [[[0.1, 0.4], [0.3, 1.0], [0.2, 0.9]]],
 }
+DATA["c32"] = DATA["c"]                      # the same values as a float32 array
+DATA["i"] = [[[0, 2], [1, 3], [1, 2]]]       # an integer array
+DTYPE = {"c32": np.float32, "i": np.int64}
+
+
+def data_arrays(key):
+    return [np.array(d, dtype=DTYPE.get(key, float)) for d in DATA[key]]
+
+
 SIGMA_STD = 0.0003  # narrow probe kernel: (smallest pixel)/40
 RULE = (
     "BFS over configuration histories of REAL PersistenceImager objects: initial states = all "
     "constructor products birth_range x pers_range x pixel_size (7x7x6; ranges include extents just above / below a multiple of the pixel) + defaults; operations = "
-    "birth_range=r (7), pers_range=r (7), pixel_size=s (6), fit(D) for 3 data sets x skew on/off (6), fit_transform(D) for 2 data sets x skew on/off (4); "
+    "birth_range=r (7), pers_range=r (7), pixel_size=s (6), fit(D) for 3 data sets x skew on/off (6) + a float32 and an integer data set (3), fit_transform(D) for 2 data sets x skew on/off (4); "
     "depth 2 (quick) / 4 (thorough), plus the FULL tree of histories (no de-duplication) to depth 4 (5) over a reduced 9-operation alphabet from 3 states; states de-duplicated on the public geometry "
     "(ranges, width, height, resolution, pixel_size) with differential continuation of merged states. "
     "Every state: resolution*pixel = width/height = range extents, transform shape = resolution, "
@@ -50,7 +59,8 @@ def inits():
 
 
 OPS = ([["birth_range", list(r)] for r in RANGES] + [["pers_range", list(r)] for r in RANGES]
-       + [["pixel_size", s] for s in PIXELS] + [["fit", k, sk] for k in DATA for sk in (True, False)]
+       + [["pixel_size", s] for s in PIXELS] + [["fit", k, sk] for k in ("a", "b", "c") for sk in (True, False)]
+       + [["fit", "c32", True], ["fit", "i", True], ["fit", "i", False]]
        + [["fit_transform", k, sk] for k in ("a", "c") for sk in (True, False)])
 
 
@@ -176,7 +186,7 @@ def covers(ctx, sig, what, asked_lo, asked_hi, got_lo, got_hi, px, where, extra)
 
 
 def skewed(dgms, skew):
-    pts = np.concatenate([np.array(d, dtype=float) for d in dgms])
+    pts = np.concatenate([np.asarray(d).astype(float) for d in dgms])
     if skew:
         pts = np.column_stack([pts[:, 0], pts[:, 1] - pts[:, 0]])
     return pts
@@ -207,7 +217,7 @@ def apply_op(ctx, im, op, where):
             covers(ctx, "pixel-size-" + ax, "the %s covered before the pixel-size change" % ax, before[ax][0], before[ax][1],
                    g[ax][0], g[ax][1], g["pixel_size"], where, {"before": before, "after": g})
     elif op[0] in ("fit", "fit_transform"):
-        dg = [np.array(d, dtype=float) for d in DATA[op[1]]]
+        dg = data_arrays(op[1])
         arg = dg[0] if len(dg) == 1 else dg
         ctx.trans()
         if op[0] == "fit":
@@ -220,7 +230,7 @@ def apply_op(ctx, im, op, where):
                 ctx.violation("image-shape", "fit_transform output shape differs from the reported resolution [%s]" % where,
                               observed=[list(sh) for sh in shapes], expected=list(im.resolution))
         g = geom(im)
-        pts = skewed(DATA[op[1]], op[2])
+        pts = skewed(dg, op[2])
         covers(ctx, "fit-birth", "the birth extent of the fitted points", pts[:, 0].min(), pts[:, 0].max(),
                g["birth_range"][0], g["birth_range"][1], g["pixel_size"], where, {"before": before, "after": g})
         covers(ctx, "fit-pers", "the persistence extent of the fitted points", pts[:, 1].min(), pts[:, 1].max(),
@@ -280,7 +290,7 @@ def run_history(case, ctx):
 
 def silent_apply(im, op):
     if op[0] in ("fit", "fit_transform"):
-        dg = [np.array(d, dtype=float) for d in DATA[op[1]]]
+        dg = data_arrays(op[1])
         getattr(im, op[0])(dg[0] if len(dg) == 1 else dg, skew=op[2])
     else:
         setattr(im, op[0], tuple(op[1]) if isinstance(op[1], list) else op[1])
